@@ -213,12 +213,24 @@ def readers():
 
 
 def big_csv_text():
-    """more than 2 MiB in which multi-byte characters sit at EVERY offset class (a reader that decodes block by block meets one at a block end)"""
+    """more than 2 MiB, mostly 3- and 4-byte characters; a short ASCII pad is chosen so that the bytes at offsets 2^20 and 2^21 of the encoded
+    text (and at as many multiples of 64 KiB as possible) are CONTINUATION bytes: a reader that decodes the data block by block cuts a character"""
     head = csv_text('big \u00e9', 2)
     rows = []
-    for i in range(48000):
-        rows.append(f'HP:{i:07d}{"é" * (i % 7)}\u8868{"😀" * (i % 3)},ZZ:{"ü" * (i % 5)}\u75c5{i:07d},{(i % 97) + 0.5}\r\n')
-    return head + ''.join(rows)
+    for i in range(21000):
+        rows.append(f'HP:{i:07d}{"😀" * (18 + i % 5)}\u8868,ZZ:{"\u75c5" * (9 + i % 4)}{i:07d},{(i % 97) + 0.5}\r\n')
+    body = ''.join(rows)
+    best, best_score = '', -1
+    for pad in range(0, 12):
+        extra = f'PAD:{"x" * pad},PAD:0,1.0\r\n'
+        data = (head + extra + body).encode('utf-8')
+        if len(data) <= 2 ** 21 + 8:
+            continue
+        must = all(0x80 <= data[o] <= 0xBF for o in (2 ** 20, 2 ** 21))
+        score = sum(1 for o in range(2 ** 16, len(data), 2 ** 16) if 0x80 <= data[o] <= 0xBF) + (1000 if must else 0)
+        if score > best_score:
+            best, best_score = extra, score
+    return head + best + body
 
 
 def contents():
